@@ -28,6 +28,9 @@ def edge_error(e, kinds, state):
     if t == "prior":
         (a,) = e["ids"]
         return [x - y for x, y in zip(G.compact(kinds[a], state[a]), e["z"])]
+    if t == "tern":
+        a, b, c = e["ids"]
+        return [state[a][k] + state[b][k] - 2.0 * state[c][k] - e["z"][k] for k in range(2)]
     raise ValueError(t)
 
 
